@@ -67,9 +67,29 @@ type shaper struct {
 	name   string
 	shapes []shape
 
+	// Inconsistent-replica behaviour (see inconsCfg). stale: keys that this
+	// replica's FindMissing reports present no matter what it stores (the
+	// replica sits behind a stale existence cache). evictAt: the object
+	// disappears from the replica at the moment its n-th Get (counted per
+	// key, over the Gets that reach the replica) arrives: evicted between
+	// an existence check and the copy.
+	stale   map[string]bool
+	evictAt map[string]int
+
 	mu       sync.Mutex
 	gets     int
 	midFired []int // Get call numbers whose stream returned the injected error
+	keyGets  map[string]int
+	events   []inconsEvent   // Gets answered NOT_FOUND for an object the replica vouched for
+	evicted  map[string]bool // keys the harness evicted from this replica so far
+}
+
+// inconsEvent: a Get at this replica was answered NOT_FOUND although the
+// replica's own existence check vouches (stale) or vouched until this very
+// moment (evicted) for the object.
+type inconsEvent struct {
+	key     string
+	evicted bool // the object was removed at this Get; false: a stale-cache ghost
 }
 
 type failingReader struct {
@@ -113,9 +133,20 @@ func (r *failingReader) Close() error { return nil }
 func (s *shaper) midText() string { return "injected mid-stream fault at " + s.name }
 
 func (s *shaper) Get(ctx context.Context, d digest.Digest) buffer.Buffer {
+	key := d.GetKey(s.Mem.KeyFormat)
 	s.mu.Lock()
 	no := s.gets
 	s.gets++
+	kn := s.keyGets[key]
+	s.keyGets[key] = kn + 1
+	at, scheduled := s.evictAt[key]
+	if scheduled && at == kn && s.Mem.Has(d) {
+		s.Mem.Delete(d)
+		s.evicted[key] = true
+		s.events = append(s.events, inconsEvent{key: key, evicted: true})
+	} else if s.stale[key] && !s.Mem.Has(d) {
+		s.events = append(s.events, inconsEvent{key: key})
+	}
 	s.mu.Unlock()
 	data, ok := s.Mem.Peek(d)
 	if !ok || len(s.shapes) == 0 {
@@ -151,10 +182,75 @@ func (s *shaper) GetFromComposite(ctx context.Context, parent, child digest.Dige
 	return b
 }
 
-func (s *shaper) counts() (gets, mid int) {
+// FindMissing: what the replica really lacks, minus what its stale
+// existence cache vouches for.
+func (s *shaper) FindMissing(ctx context.Context, ds digest.Set) (digest.Set, error) {
+	missing, err := s.Mem.FindMissing(ctx, ds)
+	if err != nil || len(s.stale) == 0 {
+		return missing, err
+	}
+	sb := digest.NewSetBuilder(0)
+	for _, d := range missing.Items() {
+		if !s.stale[d.GetKey(s.Mem.KeyFormat)] {
+			sb.Add(d)
+		}
+	}
+	return sb.Build(), nil
+}
+
+func (s *shaper) counts() (gets, mid, events int) {
 	s.mu.Lock()
 	defer s.mu.Unlock()
-	return s.gets, len(s.midFired)
+	return s.gets, len(s.midFired), len(s.events)
+}
+
+func (s *shaper) wasEvicted(key string) bool {
+	s.mu.Lock()
+	defer s.mu.Unlock()
+	return s.evicted[key]
+}
+
+// inconsCfg is the generated inconsistency of one replica, per pool index.
+type inconsCfg struct {
+	Stale   []int       // pool indices vouched for by the stale existence cache
+	EvictAt map[int]int // pool index -> ordinal of the Get of that object at which it disappears
+}
+
+func (c inconsCfg) empty() bool { return len(c.Stale) == 0 && len(c.EvictAt) == 0 }
+
+func (c inconsCfg) String() string {
+	if c.empty() {
+		return "consistent"
+	}
+	var ev []string
+	for j, n := range c.EvictAt {
+		ev = append(ev, fmt.Sprintf("o%d@get%d", j, n))
+	}
+	sort.Strings(ev)
+	return fmt.Sprintf("{stale=%v evict=%v}", c.Stale, ev)
+}
+
+// genIncons draws which replicas are inconsistent in this case and how.
+// 2 of 5 cases have two consistent replicas (the original domain).
+func genIncons(t *rapid.T, npool int) [2]inconsCfg {
+	var out [2]inconsCfg
+	who := rapid.IntRange(0, 4).Draw(t, "incons/who") // 0,1: nobody; 2: A; 3: B; 4: both
+	for i, label := range []string{"A", "B"} {
+		out[i].EvictAt = map[int]int{}
+		if !(who == 4 || who == 2+i) {
+			continue
+		}
+		for j := 0; j < npool; j++ {
+			k := rapid.IntRange(0, 3).Draw(t, fmt.Sprintf("incons/%s/o%d", label, j))
+			if k == 1 || k == 3 {
+				out[i].Stale = append(out[i].Stale, j)
+			}
+			if k == 2 || k == 3 {
+				out[i].EvictAt[j] = rapid.SampledFrom([]int{0, 0, 0, 0, 1, 1, 2, 3}).Draw(t, fmt.Sprintf("incons/%s/o%d/at", label, j))
+			}
+		}
+	}
+	return out
 }
 
 // rangeSlicer extracts [off, off+ln) of the parent as the child object.
@@ -440,11 +536,18 @@ type replica struct {
 	rec    *backends.Recorder
 }
 
-func newReplica(label string, kf digest.KeyFormat, shapes []shape, script faultScript, log *backends.Log) *replica {
+func newReplica(label string, kf digest.KeyFormat, shapes []shape, script faultScript, log *backends.Log, pool []object, inc inconsCfg) *replica {
 	r := &replica{label: label}
 	lower := "r" + strings.ToLower(label) // must not contain "Backend A"
 	r.mem = backends.NewMem(lower, kf)
-	r.shaper = &shaper{Mem: r.mem, name: lower, shapes: shapes}
+	r.shaper = &shaper{Mem: r.mem, name: lower, shapes: shapes,
+		stale: map[string]bool{}, evictAt: map[string]int{}, keyGets: map[string]int{}, evicted: map[string]bool{}}
+	for _, j := range inc.Stale {
+		r.shaper.stale[pool[j].d.GetKey(kf)] = true
+	}
+	for j, n := range inc.EvictAt {
+		r.shaper.evictAt[pool[j].d.GetKey(kf)] = n
+	}
 	r.faulty = &scripted{BlobAccess: r.shaper, name: lower, script: script, counts: map[string]int{}}
 	r.rec = backends.NewRecorder(label, r.faulty, log)
 	return r
@@ -457,6 +560,7 @@ type mark struct {
 	fired  [2]int            // per replica: len(fired)
 	gets   [2]int            // per replica: shaper Get number
 	mid    [2]int            // per replica: len(midFired)
+	events [2]int            // per replica: len(shaper.events)
 }
 
 // observed is what happened at the replicas during one op.
@@ -467,6 +571,9 @@ type observed struct {
 	codes      map[codes.Code]bool
 	contacted  [2]bool
 	midFired   int
+	// incons[i]: Gets of this op that replica i answered NOT_FOUND for an
+	// object it vouched for (stale ghost, or evicted at that very Get)
+	incons [2][]inconsEvent
 }
 
 type pair struct {
@@ -479,7 +586,7 @@ func (p *pair) mark() mark {
 	m.logLen = len(p.log.Snapshot())
 	for i, r := range p.r {
 		m.counts[i], m.fired[i] = r.faulty.snapshot()
-		m.gets[i], m.mid[i] = r.shaper.counts()
+		m.gets[i], m.mid[i], m.events[i] = r.shaper.counts()
 	}
 	return m
 }
@@ -520,6 +627,7 @@ func (p *pair) observe(m mark, midFirst bool) observed {
 				o.firstFault[i] = true
 			}
 		}
+		o.incons[i] = append([]inconsEvent(nil), r.shaper.events[m.events[i]:]...)
 		r.shaper.mu.Unlock()
 	}
 	return o
@@ -527,12 +635,32 @@ func (p *pair) observe(m mark, midFirst bool) observed {
 
 func (o observed) any() bool { return o.anyFault[0] || o.anyFault[1] }
 
+// inconsistent: some replica answered NOT_FOUND during this op for an
+// object it vouched for.
+func (o observed) inconsistent() bool { return len(o.incons[0])+len(o.incons[1]) > 0 }
+
+// evictedNow: the harness evicted that key from replica i during this op.
+func (o observed) evictedNow(i int, key string) bool {
+	for _, e := range o.incons[i] {
+		if e.evicted && e.key == key {
+			return true
+		}
+	}
+	return false
+}
+
+// mentionsReplica: the message names the replica somewhere ("Backend A
+// returned inconsistent results ...", "... from backend A to ...").
+func mentionsReplica(err error, label string) bool {
+	return strings.Contains(strings.ToLower(status.Convert(err).Message()), "backend "+strings.ToLower(label))
+}
+
 func (o observed) String() string {
 	parts := make([]string, 0, len(o.calls))
 	for _, c := range o.calls {
 		parts = append(parts, c.Backend+"."+c.Op)
 	}
-	return fmt.Sprintf("calls=%v faultAtFirstCall=%v anyFault=%v", parts, o.firstFault, o.anyFault)
+	return fmt.Sprintf("calls=%v faultAtFirstCall=%v anyFault=%v vouchedButNotFound=[A:%d B:%d]", parts, o.firstFault, o.anyFault, len(o.incons[0]), len(o.incons[1]))
 }
 
 // carriesInjected: the error is (a wrapping of) one of the faults that
@@ -571,14 +699,19 @@ func mirroredProperty(t *testing.T, rec *vstats.Recorder) {
 		log := &backends.Log{}
 		shapesA, shapesB := genShapes(t, "A"), genShapes(t, "B")
 		scriptA, scriptB := genScript(t, "A"), genScript(t, "B")
+		incons := genIncons(t, len(pool))
 		p := &pair{log: log}
-		p.r[0] = newReplica("A", kf, shapesA, scriptA, log)
-		p.r[1] = newReplica("B", kf, shapesB, scriptB, log)
+		p.r[0] = newReplica("A", kf, shapesA, scriptA, log, pool, incons[0])
+		p.r[1] = newReplica("B", kf, shapesB, scriptB, log, pool, incons[1])
 		clk := hx.NewVClock()
 		replAB := cfgAB.Build(p.r[0].rec, p.r[1].rec, kf, clk)
 		replBA := cfgBA.Build(p.r[1].rec, p.r[0].rec, kf, clk)
 		// copies[i]: the replicator that copies INTO replica i really copies
 		copies := [2]bool{!cfgBA.IsNoop(), !cfgAB.IsNoop()}
+		// remembers[i]: the replicator stack into replica i contains a
+		// queued replicator, which remembers (frozen clock: forever) what
+		// it copied and does not copy it again.
+		remembers := [2]bool{strings.Contains(cfgBA.String(), "queued"), strings.Contains(cfgAB.String(), "queued")}
 		ba := mirrored.NewMirroredBlobAccess(p.r[0].rec, p.r[1].rec, replAB, replBA)
 		ctx := context.Background()
 
@@ -596,13 +729,30 @@ func mirroredProperty(t *testing.T, rec *vstats.Recorder) {
 			c.Add(o.inst, o.data, placement[i])
 		}
 		c.Add(int(kf), cfgAB.String(), cfgBA.String(), fmt.Sprint(shapesA), fmt.Sprint(shapesB), scriptString(scriptA), scriptString(scriptB))
+		c.Add(incons[0].String(), incons[1].String())
 		c.Class("repl_" + cfgAB.Kind)
 		c.Class("repl_" + cfgBA.Kind)
+		for i, r := range p.r {
+			if !incons[i].empty() {
+				c.Class("inconsistent_replica_" + r.label)
+			}
+		}
 
 		has := func(i int, o object) bool { return p.r[i].mem.Has(o.d) }
+		key := func(o object) string { return o.d.GetKey(kf) }
+		// vouches: replica i's own existence check reports the object
+		// present (it holds it, or its stale cache says so).
+		vouches := func(i int, o object) bool { return has(i, o) || p.r[i].shaper.stale[key(o)] }
+		// copiesInto: a repair / synchronisation of o into replica i can be
+		// expected to store o there. Not when the replicator is noop, and
+		// not when a queued replicator may remember having copied o before
+		// the replica lost it again.
+		copiesInto := func(i int, o object) bool {
+			return copies[i] && !(remembers[i] && p.r[i].shaper.wasEvicted(key(o)))
+		}
 
 		// invariants over the replicas' contents, checked after every op
-		checkContents := func(what string, before [][2]bool) {
+		checkContents := func(what string, before [][2]bool, obs observed) {
 			for i, r := range p.r {
 				for _, k := range r.mem.Keys() {
 					if _, ok := poolKeys[k]; !ok {
@@ -614,7 +764,7 @@ func mirroredProperty(t *testing.T, rec *vstats.Recorder) {
 					if ok && !bytes.Equal(data, o.data) {
 						t.Fatalf("after %s: replica %s holds %q under the digest of %q", what, r.label, data, o.data)
 					}
-					if before[j][i] && !ok {
+					if before[j][i] && !ok && !obs.evictedNow(i, key(o)) {
 						t.Fatalf("after %s: replica %s lost object %d", what, r.label, j)
 					}
 				}
@@ -641,12 +791,20 @@ func mirroredProperty(t *testing.T, rec *vstats.Recorder) {
 		for op := 0; op < nops; op++ {
 			kind := rapid.SampledFrom([]string{"Get", "Get", "Get", "GetFromComposite", "Put", "FindMissing", "FindMissing", "GetCapabilities"}).Draw(t, "op")
 			before := snapshot()
+			// vouched[j][i]: replica i's existence check reports object j
+			// present at the start of this op
+			vouched := make([][2]bool, len(pool))
+			for j, o := range pool {
+				vouched[j] = [2]bool{vouches(0, o), vouches(1, o)}
+			}
 			m := p.mark()
+			var obs observed
 			switch kind {
 			case "GetCapabilities":
 				c.Add(kind)
 				_, err := ba.GetCapabilities(ctx, digest.EmptyInstanceName)
 				o := p.observe(m, false)
+				obs = o
 				if err != nil {
 					t.Fatalf("GetCapabilities failed: %v", err)
 				}
@@ -689,8 +847,9 @@ func mirroredProperty(t *testing.T, rec *vstats.Recorder) {
 					got, err = consume(b, method, chunk)
 				})
 				o := p.observe(m, true)
-				what := fmt.Sprintf("%s(object %d, %s) placement before A=%v B=%v -> %d bytes, %v; %s; A->B %s, B->A %s",
-					kind, j, methodNames[method], before[j][0], before[j][1], len(got), err, o, cfgAB, cfgBA)
+				obs = o
+				what := fmt.Sprintf("%s(object %d, %s) placement before A=%v B=%v -> %d bytes, %v; %s; A->B %s, B->A %s; A %s, B %s",
+					kind, j, methodNames[method], before[j][0], before[j][1], len(got), err, o, cfgAB, cfgBA, incons[0], incons[1])
 				if len(o.calls) == 0 || o.calls[0].Op != kind {
 					t.Fatalf("%s: first replica call is not the read itself", what)
 				}
@@ -701,6 +860,9 @@ func mirroredProperty(t *testing.T, rec *vstats.Recorder) {
 				S := 1 - F
 				alternate(what, F)
 				held := before[j][0] || before[j][1]
+				// heldThroughout: some replica held the object when the
+				// read started and did not evict it while the read ran
+				heldThroughout := (before[j][0] && !o.evictedNow(0, key(obj))) || (before[j][1] && !o.evictedNow(1, key(obj)))
 				code := status.Code(err)
 				switch {
 				case err == nil:
@@ -716,24 +878,53 @@ func mirroredProperty(t *testing.T, rec *vstats.Recorder) {
 					if o.contacted[S] && o.firstFault[S] {
 						t.Fatalf("%s: the replica consulted second (%s) failed, yet the read succeeded", what, p.r[S].label)
 					}
-					if copies[F] && !has(F, obj) {
+					// (a first replica whose stale existence cache vouches
+					// for the object tells a double-checking replicator that
+					// nothing needs to be copied: repair cannot be demanded)
+					if copiesInto(F, obj) && !p.r[F].shaper.stale[key(obj)] && !has(F, obj) {
 						t.Fatalf("%s: read succeeded but the replica consulted first (%s) still lacks the object: no read repair", what, p.r[F].label)
 					}
 				case code == codes.NotFound:
-					if held {
+					// A read performs no existence check: NOT_FOUND from
+					// both replicas is the truthful answer even when one of
+					// them is a ghost (vouches for the object but cannot
+					// deliver it) or evicted its copy during this read.
+					if heldThroughout {
 						t.Fatalf("%s: NOT_FOUND although a replica holds the object", what)
 					}
 					if o.firstFault[F] || (o.contacted[S] && o.firstFault[S]) {
 						t.Fatalf("%s: a replica failed with a non-NOT_FOUND error but the caller got NOT_FOUND: failure masked", what)
 					}
 				default:
-					if !o.any() {
-						t.Fatalf("%s: error although no failure was injected during this call", what)
+					// An inconsistent replica (answers NOT_FOUND for an
+					// object its own existence check vouches for, or loses
+					// the repaired copy before it is read back) is a replica
+					// failure: a non-NOT_FOUND error is a legitimate outcome
+					// of such a read (e.g. "Blob absent from sink after
+					// replication"), never required.
+					// The same holds when the first replica lost the object
+					// in an earlier call and a queued replicator still
+					// remembers having copied it there: it declines to copy
+					// again and the read-back from the first replica fails.
+					excused := o.inconsistent() || (remembers[F] && p.r[F].shaper.wasEvicted(key(obj)))
+					if !o.any() && !excused {
+						t.Fatalf("%s: error although no failure was injected during this call and both replicas behaved consistently", what)
 					}
 					if !carriesInjected(err, o) {
-						t.Fatalf("%s: the error is not (a wrapping of) an injected failure", what)
+						if !excused {
+							t.Fatalf("%s: the error is not (a wrapping of) an injected failure", what)
+						}
+						switch {
+						case namesReplica(err, p.r[F].label):
+							c.Class("get_inconsistency_error_named_first")
+						case namesReplica(err, p.r[S].label):
+							c.Class("get_inconsistency_error_named_second")
+						default:
+							c.Class("get_inconsistency_error_unnamed")
+						}
 					}
 					switch {
+					case !carriesInjected(err, o):
 					case o.firstFault[F]:
 						if !namesReplica(err, p.r[F].label) {
 							t.Fatalf("%s: failure of the replica consulted first must be reported as \"Backend %s: ...\"", what, p.r[F].label)
@@ -778,6 +969,19 @@ func mirroredProperty(t *testing.T, rec *vstats.Recorder) {
 				default:
 					c.Class("get_not_found")
 				}
+				for i, r := range p.r {
+					for _, e := range o.incons[i] {
+						role := "second"
+						if i == F {
+							role = "first"
+						}
+						if e.evicted {
+							c.Class("get_" + role + "_replica_" + r.label + "_evicts_during_read")
+						} else {
+							c.Class("get_" + role + "_replica_" + r.label + "_ghost")
+						}
+					}
+				}
 				if before[j][S] && !before[j][F] {
 					c.NonTrivial()
 					c.Class("get_one_sided_other_first")
@@ -818,6 +1022,7 @@ func mirroredProperty(t *testing.T, rec *vstats.Recorder) {
 					err = ba.Put(ctx, obj.d, b)
 				})
 				o := p.observe(m, false)
+				obs = o
 				what := fmt.Sprintf("Put(object %d, wrong=%v) -> %v; %s", j, wrong, err, o)
 				if err == nil {
 					if wrong {
@@ -869,15 +1074,56 @@ func mirroredProperty(t *testing.T, rec *vstats.Recorder) {
 					missing, err = ba.FindMissing(ctx, sb.Build())
 				})
 				o := p.observe(m, false)
-				what := fmt.Sprintf("FindMissing(%v) -> %v, %v; %s; A->B %s, B->A %s", members, missing.Items(), err, o, cfgAB, cfgBA)
+				obs = o
+				what := fmt.Sprintf("FindMissing(%v) -> %v, %v; %s; A->B %s, B->A %s; A %s, B %s", members, missing.Items(), err, o, cfgAB, cfgBA, incons[0], incons[1])
 				oneSided := 0
+				// ghostSync[i]: objects that must be synchronised FROM replica
+				// i (it vouches for them, the other replica does not, and the
+				// replicator into the other replica really copies) but that
+				// replica i cannot deliver: it does not hold them.
+				var ghostSync [2][]int
+				for _, j := range members {
+					for i := range p.r {
+						if vouched[j][i] && !vouched[j][1-i] && !before[j][i] && copiesInto(1-i, pool[j]) {
+							ghostSync[i] = append(ghostSync[i], j)
+						}
+					}
+				}
+				for i, r := range p.r {
+					evicted := 0
+					for _, e := range o.incons[i] {
+						if e.evicted {
+							evicted++
+						}
+					}
+					if len(ghostSync[i]) > 0 {
+						c.Class("find_sync_from_ghost_replica_" + r.label)
+					}
+					if evicted > 0 {
+						c.Class("find_sync_source_" + r.label + "_evicts_before_copy")
+					}
+					if len(o.incons[i]) > 0 {
+						c.Class("find_sync_from_inconsistent_replica_" + r.label)
+						c.NonTrivial()
+					}
+				}
 				if err == nil {
 					if o.firstFault[0] || o.firstFault[1] {
 						t.Fatalf("%s: a replica's FindMissing failed but the call succeeded", what)
 					}
+					for i, r := range p.r {
+						if len(o.incons[i]) > 0 {
+							t.Fatalf("%s: while synchronising, replica %s answered NOT_FOUND for %d object(s) its own existence check reported present, yet FindMissing succeeded: an inconsistent replica is a replica failure and must be surfaced", what, r.label, len(o.incons[i]))
+						}
+						if len(ghostSync[i]) > 0 {
+							t.Fatalf("%s: succeeded although objects %v, reported present by replica %s only, cannot be copied from it (it does not hold them): successful but incomplete answer", what, ghostSync[i], r.label)
+						}
+					}
+					// The verdict is computed from what the replicas'
+					// existence checks report.
 					var want []string
 					for _, j := range members {
-						if !before[j][0] && !before[j][1] {
+						if !vouched[j][0] && !vouched[j][1] {
 							want = append(want, pool[j].d.String())
 						}
 					}
@@ -892,9 +1138,9 @@ func mirroredProperty(t *testing.T, rec *vstats.Recorder) {
 					}
 					for _, j := range members {
 						for i := range p.r {
-							if before[j][1-i] && !before[j][i] {
+							if vouched[j][1-i] && !vouched[j][i] {
 								oneSided++
-								if copies[i] && !has(i, pool[j]) {
+								if copiesInto(i, pool[j]) && !has(i, pool[j]) {
 									t.Fatalf("%s: succeeded, but object %d (held by %s only) was not copied to %s", what, j, p.r[1-i].label, p.r[i].label)
 								}
 							}
@@ -907,15 +1153,30 @@ func mirroredProperty(t *testing.T, rec *vstats.Recorder) {
 					}
 				} else {
 					if status.Code(err) == codes.NotFound {
+						if o.inconsistent() {
+							t.Fatalf("%s: a replica answered NOT_FOUND while synchronising an object it had reported present (vouchedButNotFound above); that replica failure must not reach the caller as NOT_FOUND", what)
+						}
 						t.Fatalf("%s: FindMissing failed with NOT_FOUND", what)
 					}
-					if !o.any() {
-						t.Fatalf("%s: error although no failure was injected", what)
+					if !o.any() && !o.inconsistent() {
+						t.Fatalf("%s: error although no failure was injected and both replicas behaved consistently", what)
 					}
 					if !carriesInjected(err, o) {
-						t.Fatalf("%s: the error is not (a wrapping of) an injected failure", what)
-					}
-					if o.firstFault[0] || o.firstFault[1] {
+						// Not an injected failure: then it must be the report
+						// of the inconsistency, naming the replica that
+						// answered NOT_FOUND for an object it vouched for.
+						if !o.inconsistent() {
+							t.Fatalf("%s: the error is not (a wrapping of) an injected failure", what)
+						}
+						if !((len(o.incons[0]) > 0 && mentionsReplica(err, "A")) || (len(o.incons[1]) > 0 && mentionsReplica(err, "B"))) {
+							t.Fatalf("%s: the error does not name the inconsistent replica (the one that answered NOT_FOUND for an object it reported present)", what)
+						}
+						for i, r := range p.r {
+							if len(o.incons[i]) > 0 && mentionsReplica(err, r.label) {
+								c.Class("find_inconsistency_reported_" + r.label)
+							}
+						}
+					} else if o.firstFault[0] || o.firstFault[1] {
 						if !((o.firstFault[0] && namesReplica(err, "A")) || (o.firstFault[1] && namesReplica(err, "B"))) {
 							t.Fatalf("%s: the error does not name the replica whose FindMissing failed", what)
 						}
@@ -930,11 +1191,11 @@ func mirroredProperty(t *testing.T, rec *vstats.Recorder) {
 				}
 				rendered = append(rendered, fmt.Sprintf("FindMissing(%v)->%v,%v", members, len(missing.Items()), err))
 			}
-			checkContents(kind, before)
+			checkContents(kind, before, obs)
 		}
 		c.Sample(func() string {
-			return fmt.Sprintf("A->B=%s B->A=%s placement=%v shapesA=%v shapesB=%v faultsA=%s faultsB=%s ops=%v",
-				cfgAB, cfgBA, placement, shapesA, shapesB, scriptString(scriptA), scriptString(scriptB), rendered)
+			return fmt.Sprintf("A->B=%s B->A=%s placement=%v inconsistencyA=%s inconsistencyB=%s shapesA=%v shapesB=%v faultsA=%s faultsB=%s ops=%v",
+				cfgAB, cfgBA, placement, incons[0], incons[1], shapesA, shapesB, scriptString(scriptA), scriptString(scriptB), rendered)
 		})
 		c.End()
 	})
